@@ -6,6 +6,7 @@
    Field *names* live outside the model (the harness maps them to indices); order is list order.
    Multi-dimensional list fields are nested SList.                                                   *)
 From PV Require Import Base.Prelude.
+(* -- *)
 Open Scope Z_scope.
 
 Inductive shape : Type :=
